@@ -5,6 +5,8 @@ package main
 // mutations (missing / extra / null members, wrong kinds, non-ASCII strings).
 
 import (
+	"fmt"
+	"hash/fnv"
 	"strings"
 
 	"verifharness/hx"
@@ -16,6 +18,107 @@ type gen struct {
 	// force: inside a union / xor / intersection every numeric leaf is of this one kind ("flt" or an
 	// integer kind), so that the schema-directed embedding of a JSON number is unambiguous.
 	force string
+	// pool: the top-level schemas generated so far.  A later schema may embed one of them as a
+	// child (the SAME AST node, hence — through the builder's memo — the same live instance), so
+	// that a schema is converted on its own, then as part of a parent, then on its own again.
+	pool []*Sch
+	used []*Sch // pool nodes embedded in the schema being generated
+}
+
+// height / numeric kinds of a schema (for placing pool nodes where the depth budget and the
+// "one numeric kind per union" rule allow).
+func height(s *Sch) int {
+	if s == nil {
+		return 0
+	}
+	h := 0
+	up := func(c *Sch) {
+		if c != nil {
+			if k := height(c); k > h {
+				h = k
+			}
+		}
+	}
+	up(s.Elem)
+	up(s.Key)
+	up(s.Catch)
+	up(s.Rest)
+	for _, f := range s.Fields {
+		up(f.S)
+	}
+	for _, it := range s.Items {
+		up(it)
+	}
+	switch s.K {
+	case "opt", "nul", "id":
+		return h
+	}
+	return h + 1
+}
+
+func numKinds(s *Sch, acc map[string]bool) {
+	if s == nil {
+		return
+	}
+	switch s.K {
+	case "int":
+		acc[s.Kind] = true
+	case "flt":
+		acc["flt"] = true
+	case "lit":
+		for _, l := range s.Lits {
+			if l.T == "q" {
+				acc["int"] = true
+			}
+		}
+	}
+	numKinds(s.Elem, acc)
+	numKinds(s.Key, acc)
+	numKinds(s.Catch, acc)
+	numKinds(s.Rest, acc)
+	for _, f := range s.Fields {
+		numKinds(f.S, acc)
+	}
+	for _, it := range s.Items {
+		numKinds(it, acc)
+	}
+}
+
+// fromPool: an earlier top-level schema that fits here, or nil.
+func (g *gen) fromPool(depth int) *Sch {
+	if len(g.pool) == 0 {
+		return nil
+	}
+	for try := 0; try < 4; try++ {
+		c := g.pool[g.r.Intn(len(g.pool))]
+		if c.K == "opt" || height(c) > depth+1 {
+			continue
+		}
+		ks := map[string]bool{}
+		numKinds(c, ks)
+		ok := true
+		if g.force != "" {
+			for k := range ks {
+				ok = ok && k == g.force
+			}
+		}
+		if ok {
+			g.used = append(g.used, c)
+			return c
+		}
+	}
+	return nil
+}
+
+// withID: S.Meta(GlobalMeta{ID}) — the ID is a function of the node's text, so equal IDs name equal schemas.
+func (g *gen) withID(s *Sch) *Sch {
+	switch s.K {
+	case "int", "opt", "nul", "id":
+		return s // the integer types have no Meta method
+	}
+	h := fnv.New32a()
+	h.Write([]byte(s.String()))
+	return &Sch{K: "id", Name: fmt.Sprintf("d%08x", h.Sum32()), Elem: s}
 }
 
 var fieldNames = []string{"a", "b", "c", "d"}
@@ -31,7 +134,9 @@ func (g *gen) strSchema() *Sch {
 		n = 0
 	}
 	for i := 0; i < n; i++ {
-		switch g.r.Intn(12) {
+		switch g.r.Intn(14) {
+		case 12, 13:
+			s.Cks = append(s.Cks, Ck{Op: "re", S: hx.Pick(g.r, rxNames)})
 		case 0, 1, 2:
 			s.Cks = append(s.Cks, Ck{Op: "min", N: g.small()})
 		case 3, 4, 5:
@@ -256,8 +361,16 @@ func (g *gen) andMembers(depth int) []*Sch {
 }
 
 func (g *gen) schema(depth int, top bool) *Sch {
+	if !top && g.r.Chance(14) {
+		if c := g.fromPool(depth); c != nil {
+			return c
+		}
+	}
 	if depth <= 0 || g.r.Chance(30) {
 		s := g.leaf()
+		if g.r.Chance(7) {
+			s = g.withID(s)
+		}
 		if top {
 			return g.wrap(s, 6, 10)
 		}
@@ -271,6 +384,9 @@ func (g *gen) schema(depth int, top bool) *Sch {
 		for i := 0; i < n; i++ {
 			f := g.schema(depth-1, false)
 			f = g.wrap(f, 35, 0)
+			if i > 0 && g.r.Chance(12) {
+				f = s.Fields[g.r.Intn(i)].S // the same node (live instance) under two names
+			}
 			s.Fields = append(s.Fields, Field{Name: fieldNames[i], S: f})
 		}
 		if g.r.Chance(15) {
@@ -304,6 +420,9 @@ func (g *gen) schema(depth int, top bool) *Sch {
 			if g.r.Chance(25) {
 				it = g.wrap(it, 100, 0)
 			}
+			if i > 0 && g.r.Chance(12) {
+				it = s.Items[g.r.Intn(i)]
+			}
 			s.Items = append(s.Items, it)
 		}
 		if g.r.Chance(35) {
@@ -330,6 +449,9 @@ func (g *gen) schema(depth int, top bool) *Sch {
 	default:
 		s = &Sch{K: "and", Items: g.andMembers(depth)}
 	}
+	if g.r.Chance(9) {
+		s = g.withID(s)
+	}
 	if top {
 		return g.wrap(s, 5, 10)
 	}
@@ -349,6 +471,7 @@ func (g *gen) strCands(s *Sch) []*J {
 	pre, suf, inc := "", "", ""
 	padc := "m"
 	var lens []int64
+	var rx []string
 	trim := false
 	for _, c := range s.Cks {
 		switch c.Op {
@@ -366,6 +489,11 @@ func (g *gen) strCands(s *Sch) []*J {
 			lens = append(lens, c.N)
 		case "trim":
 			trim = true
+		case "re":
+			rx = append(rx, c.S)
+			if c.S == "dg" || c.S == "hd" {
+				padc = "1"
+			}
 		}
 	}
 	core := pre + inc + suf
@@ -384,6 +512,26 @@ func (g *gen) strCands(s *Sch) []*J {
 	if len(lens) > 0 {
 		n := lens[0]
 		out = append(out, mk(n, "é"), mk(n+1, "é"), jStr(pad(int(n), "é")), jStr(pad(int((n+1)/2), "é")))
+	}
+	for _, name := range rx {
+		// members and near-misses of the table's languages
+		switch name {
+		case "lw":
+			out = append(out, jStr("abc"), jStr("abC"), jStr("ab1"), jStr("a"))
+		case "dg":
+			out = append(out, jStr("123"), jStr("12a"), jStr("1"))
+		case "hd":
+			out = append(out, jStr("a1b"), jStr("abc"), jStr("7"))
+		case "ab":
+			out = append(out, jStr("abc"), jStr("bcd"), jStr("cab"), jStr("b"))
+		case "nx":
+			out = append(out, jStr("abc"), jStr("axc"), jStr("x"))
+		}
+		for _, n := range lens {
+			for _, fill := range []string{"a", "1", "x"} {
+				out = append(out, mk(n, fill), mk(n+1, fill))
+			}
+		}
 	}
 	out = append(out, jStr(""), jStr(core), jStr("mm"), jStr("MM"))
 	if pre != "" || suf != "" || inc != "" {
@@ -472,6 +620,8 @@ func (g *gen) cands(s *Sch, depth int) []*J {
 	case "opt", "nul":
 		out := g.cands(s.Elem, depth)
 		return append([]*J{out[0], jNull()}, out[1:]...)
+	case "id":
+		return g.cands(s.Elem, depth)
 	case "obj":
 		base := jObj()
 		for _, f := range s.Fields {
